@@ -69,6 +69,20 @@ func main() {
 		cw.close()
 		tr.close()
 		fmt.Fprintf(os.Stderr, "cases=%d events=%d\n", g.n, tr.n)
+	case "corpus":
+		// cases come from a Go fuzzing corpus directory (-part <dir>); family specific loader
+		cw := newCaseWriter(*casesPath)
+		tr := newTracer(*outPath)
+		n := 0
+		for _, c := range loadFuzzCorpus(*part) {
+			n++
+			c["t"] = 60000000 + n
+			cw.write(c)
+			runGuarded(fam, c, tr)
+		}
+		cw.close()
+		tr.close()
+		fmt.Fprintf(os.Stderr, "corpus cases=%d events=%d\n", n, tr.n)
 	case "run":
 		tr := newTracer(*outPath)
 		for _, c := range readCases(*casesPath) {
